@@ -297,6 +297,9 @@ def _rules(ck, prog, cfg):
     for b, t in fs.calls():
         if is_callee(t, r"KeyDigest::bucket$"):
             d = src_of_operand(fs, t["args"][1])
+            if d.kind == "agg" and d.rv.get("ak") == "closure" and d.fields and str(d.fields[0]).isdigit() and int(d.fields[0]) < len(d.rv.get("ops", [])):
+                # read through the environment of a `for_each` closure that was expanded in place: the captured variable itself
+                d = src_of_operand(fs, d.rv["ops"][int(d.fields[0])])
             ck.check(d.kind == "path" and d.root == "depth", "R18.4", "from_state:depth" + _tag(cfg),
                      "digest construction computes buckets with %s instead of its depth parameter" % d.path(), fs.where(t["ln"]), detail="bucket(depth)")
     # every caller of from_state passes the configured depth
